@@ -46,14 +46,18 @@ def check(ctx):
     b = ctx.native()
     multi = [corpus.doc('<SYSTEM\n  BLA="1"\n  UUID="x"><SHORT-NAME>Sys</SHORT-NAME></SYSTEM>'), corpus.doc('<SYSTEM\n\n\nS="a" T="ASPICE"><SHORT-NAME\n>Sys</SHORT-NAME\n></SYSTEM\n>'),
              corpus.doc(corpus.SYS % '<!-- a\ncomment\n-->\n<CATEGORY\n>x</CATEGORY>')]
-    docs = [d.encode() for d in corpus.OWN_VALID + corpus.OWN_DEFECT + multi] + [d for _, d in corpus.fixtures(ctx.scratch.dir)]
+    docs = [d.encode() for d in corpus.OWN_VALID + corpus.OWN_DEFECT + multi + corpus.header_variants()] + [d for _, d in corpus.fixtures(ctx.scratch.dir)]
     p = ctx.scratch.path('c02_corpus.txt')
     with open(p, 'w') as f:
         for d in docs:
             f.write(d.hex() + '\n')
     rc, out, err, secs = run([b, 'api', 'lines', p, '1'], timeout=1800)
     ctx.t('native-enum', secs)
-    line = (out.strip().splitlines() or [''])[-1]
+    lines_ = out.strip().splitlines() or ['']
+    line = lines_[-1]
+    kf = [k for k, l in enumerate(lines_) if l.startswith('FAIL')]
+    if kf:
+        line = ' '.join(lines_[kf[0]:])     # a panic message may contain line breaks
     name = 'native/api-load-lines-and-probe'
     bound = '%d documents + every single-byte deletion, newline insertion and truncation of each + 5000-byte fillers (comment, blanks, empty lines, 60 comments) between xml header and root' % len(docs)
     if line.startswith('OK'):
